@@ -56,15 +56,15 @@ def rwStep (st : RwSt) (ws : List String) : Option (RwSt × String) :=
   match ws with
   | ["rnode", id, kind, name] =>
     match id.toNat? with
-    | some id => some ({ st with r := { st.r with nodes := st.r.nodes ++ [⟨id, kind, name⟩] } }, "ok")
+    | some id => some ({ st with r := { st.r with core := { st.r.core with nodes := st.r.nodes ++ [⟨id, kind, name⟩] } } }, "ok")
     | none => some (st, "bad-op")
   | ["redge", k, s, d, sp, dp] =>
     match k.toNat?, s.toNat?, d.toNat? with
     | some k, some s, some d =>
       let r := st.r
       let n := r.g.edges.length + 1
-      some ({ st with r := { r with g := r.g.insertEdge k s d, ports := r.ports ++ [(k, sp, dp)],
-                                      alloc := SlotAlloc.ofFresh n } }, "ok")
+      some ({ st with r := { core := { r.core with g := r.g.insertEdge k s d, ports := r.ports ++ [(k, sp, dp)] },
+                             alloc := SlotAlloc.ofFresh n } }, "ok")
     | _, _, _ => some (st, "bad-op")
   | ["merge"] =>
     match st.r.mergeModules with
@@ -82,12 +82,11 @@ def rwStep (st : RwSt) (ws : List String) : Option (RwSt × String) :=
       let a := r.alloc.release e
       let (k0, a) := a.alloc
       let (k1, a) := a.alloc
-      match r.g.insertIntermediateVertex k0 k1 v e with
-      | some g' =>
-        let p := r.portsOf e
-        some ({ st with r := { r with g := g', nodes := insertNodeSorted ⟨v, "hoff", "handoff"⟩ r.nodes,
-                                        ports := aset (aset (aerase r.ports e) k0 (p.1, "_")) k1 ("_", p.2), alloc := a } },
-              s!"{k0} {k1}")
+      match r.core.insertNode k0 k1 v e with
+      | some c =>
+        -- `nodes` is a slot map: a new node may reuse a freed slot, iteration is by slot index
+        let c := { c with nodes := insertNodeSorted ⟨v, "hoff", "handoff"⟩ r.nodes }
+        some ({ st with r := { core := c, alloc := a } }, s!"{k0} {k1}")
       | none => some (st, "panic")
     | _, _ => some (st, "bad-op")
   | ["rnodes"] => some (st, rwDash (showNatsC (st.r.nodes.map (·.id))))
